@@ -35,6 +35,13 @@ impl Agg {
     pub fn max(&mut self, key: &str, n: u64) { let e = self.counters.entry(format!("max:{key}")).or_insert(0); *e = (*e).max(n); }
     pub fn sample(&mut self, f: impl FnOnce() -> serde_json::Value) { if self.samples.len() < self.max_samples { self.samples.push(f()); } }
     pub fn distinct_case(&mut self, h: u64) { self.distinct.insert(h); }
+    pub fn merge(&mut self, o: Agg) {
+        self.runs += o.runs;
+        for (k, v) in o.counters { if k.starts_with("max:") { let e = self.counters.entry(k).or_insert(0); *e = (*e).max(v); } else { *self.counters.entry(k).or_insert(0) += v; } }
+        self.distinct.extend(o.distinct);
+        self.abstract_states.extend(o.abstract_states);
+        for s in o.samples { if self.samples.len() < self.max_samples { self.samples.push(s); } }
+    }
 }
 
 pub fn hash_json<T: Serialize>(x: &T) -> u64 {
